@@ -26,8 +26,9 @@ VARIABLES ph,       \* id -> "idle" | "got" | "run" | "ended" | "killed" | "done
           cw,       \* consumer -> worker number (0: a client outside any worker)
           running, started,  \* actor bodies in progress / started during this run
           wc,       \* worker configuration and shutdown state
-          rs        \* id -> result bookkeeping [n: stores attempted, ok: last successful store matches, due: a store is owed]
-wvars == <<ph, dv, out, nact, cw, running, started, wc, rs>>
+          rs,       \* id -> result bookkeeping [n: stores attempted, ok: last successful store matches, due: a store is owed]
+          ex        \* id -> [inb: actor bodies of this message in progress, okc: successful executions so far]
+wvars == <<ph, dv, out, nact, cw, running, started, wc, rs, ex>>
 wall == <<vars, tvars, wvars>>
 
 DV0 == [tried |-> 0, max |-> 0, rec |-> FALSE, res |-> FALSE, due |-> 0]
@@ -38,6 +39,7 @@ WInit == /\ TInit
          /\ nact = [i \in Ids |-> 0] /\ cw = [c \in Consumers |-> 0]
          /\ running = 0 /\ started = 0 /\ wc = WC0
          /\ rs = [i \in Ids |-> [n |-> 0, good |-> TRUE, owed |-> FALSE]]
+         /\ ex = [i \in Ids |-> [inb |-> 0, okc |-> 0]]
 
 Has(x) == x \in chk
 Terminal == {"ack", "nack", "reject", "requeue"}
@@ -45,12 +47,12 @@ Terminal == {"ack", "nack", "reject", "requeue"}
 (* ---- worker-only events --------------------------------------------------------------- *)
 WCfg == /\ Is("wcfg") /\ Step
         /\ wc' = [wc EXCEPT !.tl = Ev.tl, !.ml = Ev.ml, !.donedl = Ev.donedl]
-        /\ UNCHANGED <<vars, calls, chk, devs, ph, dv, out, nact, cw, running, started, rs>>
+        /\ UNCHANGED <<vars, calls, chk, devs, ph, dv, out, nact, cw, running, started, rs, ex>>
 
 WXs == /\ Is("xs") /\ Step
        /\ ph[Ev.i] = "got"
        /\ ph' = [ph EXCEPT ![Ev.i] = "run"]
-       /\ UNCHANGED <<vars, calls, chk, devs, dv, out, nact, cw, running, started, wc, rs>>
+       /\ UNCHANGED <<vars, calls, chk, devs, dv, out, nact, cw, running, started, wc, rs, ex>>
 
 WXe == /\ Is("xe") /\ Step
        /\ ph[Ev.i] = "run"
@@ -62,6 +64,8 @@ WXe == /\ Is("xe") /\ Step
           THEN ph' = [ph EXCEPT ![Ev.i] = "killed"]
           ELSE ph' = [ph EXCEPT ![Ev.i] = "ended"]
        /\ rs' = [rs EXCEPT ![Ev.i].owed = (dv[Ev.i].res /\ Ev.out \in {"ok", "fail"}) \/ (Ev.out = "eager" /\ @)]
+       /\ ex' = [ex EXCEPT ![Ev.i].okc = IF Ev.out = "ok" /\ ~dv[Ev.i].rec THEN @ + 1 ELSE @]
+       /\ (Has("once") => ex'[Ev.i].okc <= 1)                     \* C14: a successful job is executed exactly once
        /\ UNCHANGED <<vars, calls, chk, devs, dv, nact, cw, running, started, wc>>
 
 (* C13: a result-bucket write for message i.  Only when results are enabled for i; it must carry  *)
@@ -71,31 +75,34 @@ WStore == /\ Is("store") /\ Step
           /\ Has("result") => (dv[Ev.i].res /\ ph[Ev.i] \in {"run", "ended", "done"})
           /\ rs' = [rs EXCEPT ![Ev.i] = [n |-> @.n + 1, good |-> IF Ev.failed THEN @.good ELSE Ev.match,
                                          owed |-> IF Ev.failed THEN @.owed ELSE FALSE]]
-          /\ UNCHANGED <<vars, calls, chk, devs, ph, dv, out, nact, cw, running, started, wc>>
+          /\ UNCHANGED <<vars, calls, chk, devs, ph, dv, out, nact, cw, running, started, wc, ex>>
 
 WBs == /\ Is("bs") /\ Step
        /\ running' = running + 1 /\ started' = started + 1
        /\ Has("limit") => running' <= wc.tl                       \* C09
        /\ (Has("mlimit") /\ wc.ml > 0) => started' <= wc.ml       \* C10
        /\ Has("route") => Ev.okfn                                 \* C11
+       /\ Has("once") => ex[Ev.i].inb = 0                          \* C14: never two bodies of one message at once
+       /\ ex' = [ex EXCEPT ![Ev.i].inb = @ + 1]
        /\ UNCHANGED <<vars, calls, chk, devs, ph, dv, out, nact, cw, wc, rs>>
 
 WBe == /\ Is("be") /\ Step
        /\ running' = running - 1
+       /\ ex' = [ex EXCEPT ![Ev.i].inb = @ - 1]
        /\ UNCHANGED <<vars, calls, chk, devs, ph, dv, out, nact, cw, started, wc, rs>>
 
 WStop == /\ Is("stop") /\ Step
          /\ wc' = [wc EXCEPT !.stop = TRUE, !.stopdl = Ev.dl]
-         /\ UNCHANGED <<vars, calls, chk, devs, ph, dv, out, nact, cw, running, started, rs>>
+         /\ UNCHANGED <<vars, calls, chk, devs, ph, dv, out, nact, cw, running, started, rs, ex>>
 
 WForced == /\ Is("forced") /\ Step
            /\ wc' = [wc EXCEPT !.forced = TRUE]
-           /\ UNCHANGED <<vars, calls, chk, devs, ph, dv, out, nact, cw, running, started, rs>>
+           /\ UNCHANGED <<vars, calls, chk, devs, ph, dv, out, nact, cw, running, started, rs, ex>>
 
 WRend == /\ Is("rend") /\ Step
          /\ (Has("stop") /\ wc.stop) => now <= wc.stopdl          \* C03: returns within grace + slack
          /\ wc' = [wc EXCEPT !.ret = TRUE]
-         /\ UNCHANGED <<vars, calls, chk, devs, ph, dv, out, nact, cw, running, started, rs>>
+         /\ UNCHANGED <<vars, calls, chk, devs, ph, dv, out, nact, cw, running, started, rs, ex>>
 
 (* the loop is idle after run() returned *)
 WQuiet == /\ Is("quiet") /\ Step
@@ -108,6 +115,9 @@ WQuiet == /\ Is("quiet") /\ Step
                \A i \in Ids : (ph[i] = "ended" /\ ~wc.forced) => FALSE       \* an outcome was never reported
           /\ (Has("mlimit") /\ wc.ml > 0) =>
                \A i \in Ids : st[i] = "live" => (loc[i].p = 0 /\ ~transit[i])   \* beyond M: back in the queue
+          /\ Has("route") =>                    \* C11: messages the worker has no actor for are left alone
+               \A k \in 1..Len(Ev.foreign) :
+                  LET i == Ev.foreign[k] IN st[i] = "live" /\ loc[i].n + loc[i].d = 1 /\ ph[i] = "idle"
           /\ Has("result") =>
                \A i \in Ids :
                   /\ rs[i].good                                               \* what is stored is the latest outcome
@@ -166,23 +176,23 @@ RecurOk(i, op, m) ==
 
 WShadow ==
     CASE Is("cons") -> /\ cw' = [cw EXCEPT ![Ev.c] = Ev.w]
-                       /\ UNCHANGED <<ph, dv, out, nact, running, started, wc, rs>>
+                       /\ UNCHANGED <<ph, dv, out, nact, running, started, wc, rs, ex>>
       [] Is("begin") /\ Ev.op \in Terminal /\ ByWorker(Ev.c) ->
                        /\ Has("dispo") => DispoOk(Ev.i, Ev.op, Ev.m)
                        /\ Has("retry") => RetryOk(Ev.i, Ev.op, Ev.m)
                        /\ Has("recur") => RecurOk(Ev.i, Ev.op, Ev.m)
                        /\ nact' = [nact EXCEPT ![Ev.i] = @ + 1]
-                       /\ UNCHANGED <<ph, dv, out, cw, running, started, wc, rs>>
+                       /\ UNCHANGED <<ph, dv, out, cw, running, started, wc, rs, ex>>
       [] Is("end") /\ Call(Ev.k).op \in Terminal /\ ByWorker(Call(Ev.k).c) ->
                        /\ ph' = [ph EXCEPT ![Call(Ev.k).i] = IF @ \in {"ended", "got", "killed"} THEN "done" ELSE @]
-                       /\ UNCHANGED <<dv, out, nact, cw, running, started, wc, rs>>
+                       /\ UNCHANGED <<dv, out, nact, cw, running, started, wc, rs, ex>>
       [] Is("end") /\ Call(Ev.k).op = "consume" /\ Ev.st = "ok" /\ ByWorker(Call(Ev.k).c) ->
                        /\ ph' = [ph EXCEPT ![Ev.i] = "got"]
                        /\ dv' = [dv EXCEPT ![Ev.i] = [tried |-> Ev.p.tried, max |-> Ev.p.max, rec |-> Ev.p.rec,
                                                       res |-> Ev.p.res, due |-> Ev.p.due]]
                        /\ nact' = [nact EXCEPT ![Ev.i] = 0]
                        /\ out' = [out EXCEPT ![Ev.i] = "none"]
-                       /\ UNCHANGED <<cw, running, started, wc, rs>>
+                       /\ UNCHANGED <<cw, running, started, wc, rs, ex>>
       [] OTHER -> UNCHANGED wvars
 
 WNext == \/ (TNext /\ WShadow)
